@@ -20,31 +20,25 @@ if [ $rc -eq 3 ]; then
   exit $?
 fi
 [ $rc -eq 0 ] || { echo "c16: instrumentation failed (exit 2, not a violation)" >&2; exit 2; }
-cp "$ROOT/cmd/dst/main.go" "$S/main.go"
-cp "$ROOT/c16/reg16.go.tmpl" "$S/reg16.go"
-cat > "$S/go.mod" <<EOM
-module c16scratch
-
-go 1.23
-
-require (
-	github.com/fluhus/biostuff v0.0.0
-	verif v0.0.0
-)
-
-require (
-	github.com/fluhus/gostuff v1.0.1 // indirect
-	github.com/klauspost/compress v1.17.9 // indirect
-	github.com/spaolacci/murmur3 v1.1.0 // indirect
-	golang.org/x/exp v0.0.0-20240604190554-fc45aab8b7f8 // indirect
-)
-
-replace github.com/fluhus/biostuff => $REPO
-
-replace verif => $ROOT
-EOM
-cp "$ROOT/go.sum" "$S/go.sum"
-if ! (cd "$S" && go build -tags verif -o "$S/dst16" . ) > "$S/build.log" 2>&1; then
+# The instrumented copy becomes package <module>/regions_verifinst of the repository's own
+# module (so that it may import the repository's internal packages) through a build
+# overlay: nothing is written into $REPO, the files live in the scratch directory only.
+sed 's#iregions "c16scratch/regions"#iregions "github.com/fluhus/biostuff/regions_verifinst"#' "$ROOT/c16/reg16.go.tmpl" > "$S/reg16.go"
+{
+  printf '{"Replace": {\n'
+  for f in "$S"/regions/*.go; do
+    printf '  "%s/regions_verifinst/%s": "%s",\n' "$REPO" "$(basename "$f")" "$f"
+  done
+  printf '  "%s/cmd/dst/zz_reg16.go": "%s",\n' "$ROOT" "$S/reg16.go"
+  printf '  "%s/cmd/dst/zz_sites.go": "%s"\n}}\n' "$ROOT" "$S/sites.go"
+} > "$S/overlay.json"
+MODFILE="$ROOT/go.mod"
+if [ "$REPO" != "/repo" ]; then
+  MODFILE="$S/go.mod"
+  sed "s#=> /repo#=> $REPO#" "$ROOT/go.mod" > "$MODFILE"
+  cp "$ROOT/go.sum" "$S/go.sum"
+fi
+if ! (cd "$ROOT" && go build -modfile="$MODFILE" -overlay "$S/overlay.json" -tags verif -o "$S/dst16" ./cmd/dst ) > "$S/build.log" 2>&1; then
   cat "$S/build.log" >&2
   echo "c16: build of the instrumented driver failed (exit 2, not a violation)" >&2
   exit 2
